@@ -283,3 +283,154 @@ def c10(ck):
     ck.trace("ell", "ell", ["-n", q(ck, 1500, 30000)], "TraceEllipsis", "TraceEllipsis.cfg", ["InvC10"], agree=["InvAgreeC10"],
              nontrivial=nt, key=key)
     ck.assumptions.append(ITEMS_NOTE)
+
+
+# ---------------------------------------------------------------------------------------------- C11 / C18
+def _history_checks(ck, inv):
+    ck.model("Message", "Message", "Message_%s.cfg" % ck.tier, timeout=q(ck, 300, 3000))
+    ck.trace("hist", "hist", ["-n", q(ck, 150, 3000)], "TraceMessage", "TraceMessage.cfg", [inv],
+             nontrivial=lambda e: e.get("ev") == "step" and e.get("res", {}).get("outcome") in ("new", "same"),
+             key=lambda e: json.dumps([e.get("op"), e.get("res"), e.get("dig")], sort_keys=True))
+    ck.assumptions += ["digests are SHA-1 of the JSON of all observers of an object, computed by the harness",
+                       ITEMS_NOTE]
+
+
+@check("C11", design_ref="4 C11, App. I",
+       technique="TLC model checking of an append-only pool model with environment scribble actions; trace validation of random real API histories with in-place mutation of every argument and returned slice",
+       text="Message.tla models producers as appends to a pool and the caller's mutations as environment actions; TLC checks the action property "
+            "'no existing pool entry changes' over all behaviours of the bounded model. Real histories (40 calls quick / 120 thorough over a growing "
+            "pool with shared items: factories, list construction from shared items, fills, SetWaitBit, SetSessionIDAndSystemBytes, observers, "
+            "decoding) are recorded; after every call the harness overwrites every slice/map it passed in or got back and re-observes every live "
+            "object; TLC checks that every earlier object's digest is unchanged at every step.",
+       note="observation = String, ToBytes, Variables, Size, all header accessors and the representation-level projection, hashed by the harness")
+def c11(ck):
+    ck.rule.append("model: pool <= 3 (quick) / 4 (thorough) messages over header corner values; traces: random histories; non-trivial = a step "
+                   "that produced or returned an object; distinct by (op, result, digests)")
+    _history_checks(ck, "InvC11")
+
+
+@check("C18", design_ref="4 C18, App. I",
+       technique="TLC model checking of per-producer frame conditions and validity rules on the pool model; trace validation of real producer calls against the same producer functions",
+       text="MessageOps.tla defines what SetWaitBit, SetSessionIDAndSystemBytes, FillVariables and the factories compute, field by field, and the "
+            "validity rules; TLC checks the frame conditions and RepOK on all behaviours of the bounded model, and then, on real histories, that "
+            "every produced message equals the specification's record in every field (so all unnamed fields are carried over), is refused exactly "
+            "when the rules say so, and that SetWaitBit on a decided message returns an equal message.",
+       note="arguments include rejected ones (session id -2, 65536; W on an even function; system bytes of length 0..6); the item tree after "
+            "FillVariables is compared with Items!Subst (ellipsis-free templates)")
+def c18(ck):
+    ck.rule.append("as C11; every producer call of the histories is judged field by field")
+    _history_checks(ck, "InvC18")
+
+
+# ---------------------------------------------------------------------------------------------- SML family
+SML_NOTE = ("non-ASCII input is classified (space / letter / digit / other / invalid byte) by Go's unicode and utf8 packages in the harness; "
+            "decimal -> binary float conversion is an oracle (strconv.ParseFloat per number spelling); diagnostic wording is never compared with the specification")
+SML_KEY = lambda e: json.dumps(e.get("text") or e.get("string") or [e.get("r1", {}).get("text"), e.get("r2", {}).get("text")] or e.get("head"))
+
+
+def _sml_models(ck, which):
+    if "lexer" in which:
+        ck.model("MCLexer", "MCLexer", "MCLexer_%s.cfg" % ck.tier, timeout=q(ck, 600, 3000))
+    if "layout" in which:
+        ck.model("MCLayout", "MCLayout", "MCLayout_%s.cfg" % ck.tier, timeout=q(ck, 600, 6000))
+    if "concat" in which:
+        ck.model("MCConcat", "MCConcat", "MCConcat.cfg", timeout=600)
+
+
+@check("C04", design_ref="4 C04, App. G",
+       technique="TLA+ printer and parser models; trace validation of real String() -> sml.Parse round trips of random expressible messages and of every message of accepted texts",
+       text="For seeded random messages expressible in SML (every ASCII code in strings, boundary numbers, shortest-form floats, ASCII variables with "
+            "all bound forms, nested numbered ellipses, adversarial names) and for every message the real parser returns for accepted texts, TLC checks "
+            "that parsing the real printed form yields exactly one message, silently, with the same projection, variables, printed form (fixed point) "
+            "and completed bytes; model agreement: String() equals SmlPrinter character for character and the re-parse equals SmlParser.",
+       note=SML_NOTE + "; 'expressible' = ellipses numbered in order of appearance, variable names that are not type keywords, names the header lexer reads as one name")
+def c04(ck):
+    ck.rule.append("random expressible messages (3 of 4 cases) and messages of accepted plausible texts (1 of 4); non-trivial = message has an item; distinct by printed form")
+    _sml_models(ck, ["layout"])
+    ck.trace("pp", "pp", ["-n", q(ck, 1200, 30000)], "TraceSml", "TraceSml.cfg", ["InvC04"], agree=["InvAgreeC04"],
+             nontrivial=lambda e: e.get("orig", {}).get("item", {}).get("f") != "none", key=SML_KEY)
+    ck.assumptions.append(SML_NOTE)
+
+
+@check("C05", design_ref="4 C05, App. E",
+       technique="TLA+ parser model with an unbounded-integer layer as the statement of what SML literals denote; trace validation of real parses of a systematic literal x type x position matrix",
+       text="SmlParser.tla states, with its own arithmetic, what every literal denotes for every item type (bases 2/8/10/16 in either case, signs, ranges "
+            "of all widths, character codes, quoted strings as the characters between the quotes, T/F) and when it is an error. Every one of ~100 "
+            "boundary literals is placed alone, first and second in an item of each of the 13 non-list types (plus random texts); TLC checks that the "
+            "real parser reports an error iff the specification does and otherwise returns exactly the denoted values in items of the written types.",
+       note=SML_NOTE + "; declared freedoms: a leading-zero integer (010) is read as octal by integers and decimal by floats; +5 is refused for unsigned items - both as the code does today, the drivers include them and the specification follows the code")
+def c05(ck):
+    ck.rule.append("13 types x 101 literals x 3 positions x random letter case, plus random plausible texts; non-trivial = every event; distinct by text")
+    ck.trace("lit", "lit", ["-n", q(ck, 500, 20000)], "TraceSml", "TraceSml.cfg", ["InvC05"], agree=["InvAgreeParse"], key=SML_KEY)
+    ck.assumptions.append(SML_NOTE)
+
+
+@check("C06", design_ref="4 C06, App. D, E",
+       technique="TLC model checking of the lexer machine (termination measure, one token per step, positions inside the text); trace validation of real parses of token soups and, in an isolated worker, of hostile inputs",
+       text="TLC checks on the lexer machine, for every input of a bounded scope from both start states, that each stateFn invocation strictly decreases a "
+            "termination measure, emits at most one token, and places every token inside the text. Real sml.Parse is run on seeded token soups and "
+            "plausible texts and, in an isolated worker under RLIMIT_AS, on hostile inputs (absurd sizes, duplicated huge ASCII variables, exotic white "
+            "space, invalid UTF-8, 64 KiB tokens, deep nesting); TLC checks: returned normally, all-or-nothing, every diagnostic positioned inside the "
+            "input, and - when nothing is reported - exactly the specification's messages in order. Lexer hook streams (tokens and state steps) are "
+            "validated against the machine step by step.",
+       note=SML_NOTE + "; running time is not judged (watchdog overrun = exit 2)")
+def c06(ck):
+    ck.rule.append("model: inputs <= 3 (quick) / 4 symbols over 26 classes x 2 start states; traces: token soups and plausible texts, lexer hook "
+                   "streams, ~385 hostile inputs in a worker; non-trivial = text longer than 5 chars; distinct by text")
+    _sml_models(ck, ["lexer"])
+    ck.trace("soup", "soup", ["-n", q(ck, 2500, 60000)], "TraceSml", "TraceSml.cfg", ["InvC06"], agree=["InvAgreeParse"],
+             nontrivial=lambda e: len(e.get("text", [])) > 5, key=SML_KEY)
+    if ck.violations:
+        return
+    ck.trace("lex", "lex", ["-n", q(ck, 1500, 30000)], "TraceSml", "TraceSml.cfg", [], agree=["InvAgreeLex"],
+             nontrivial=lambda e: len(e.get("text", [])) > 5, key=SML_KEY)
+    ck.trace("hostile", "hostile", [], "TraceSml", "TraceSml.cfg", ["InvC06h"], worker=True,
+             nontrivial=lambda e: e.get("ev") == "hostile", key=lambda e: json.dumps([e.get("ev"), e.get("head"), e.get("len")]))
+    ck.assumptions.append(SML_NOTE)
+
+
+@check("C08", design_ref="4 C08, App. J",
+       technique="TLC model checking that any layout of a token list lexes and parses like the plain layout; trace validation of real parses of two layouts of one token list, with positions mapped through the lexer model",
+       text="'The same tokens in another layout' is defined by the lexer model (equal token types and values, numbers up to letter case, comments "
+            "dropped). TLC checks on the model that every assignment of separators/comments to the gaps of every token list in scope leaves the "
+            "token shape and the parse unchanged. The real parser is run on a plain and a re-laid-out rendering (random blanks, tabs, LF, CRLF, "
+            "comments in several scripts and with hostile trailing bytes, case flips of keywords, type names, number prefixes) of seeded token lists, "
+            "valid and damaged; TLC checks identical messages and that each diagnostic keeps its text and sits at the same token in both.",
+       note=SML_NOTE)
+def c08(ck):
+    ck.rule.append("model: token lists <= 2 (quick) / 3 words from a 20-word vocabulary x 6 separators per gap; traces: seeded token lists "
+                   "(valid, damaged, printed forms) x 2 layouts; non-trivial = at least 4 tokens; distinct by the pair of texts")
+    _sml_models(ck, ["layout"])
+    ck.trace("layout", "layout", ["-n", q(ck, 1200, 30000)], "TraceSml", "TraceSml.cfg", ["InvC08"], agree=["InvAgreeC08"],
+             nontrivial=lambda e: len(e.get("r1", {}).get("text", [])) > 12, key=SML_KEY)
+    ck.assumptions.append(SML_NOTE)
+
+
+@check("C15", design_ref="4 C15",
+       technique="TLA+ parser model (bounds as unbounded integers, Atoi saturation) as oracle; trace validation of a complete small-number sweep of size declarations and of ASCII-variable fills",
+       text="All four declaration forms x 14 item types x all (lower, upper, actual) triples in 0..3, with and without inner blanks, plus huge and "
+            "overflowing bounds, are parsed by the real parser; TLC checks accept/reject and the error position (the declaration) against the "
+            "specification. ASCII variables with every bound form are parsed, printed back (the specification re-parses the real printed form) and "
+            "filled with strings of length 0..9; TLC checks refusal iff the length lies outside the bounds the grammar reads.",
+       note=SML_NOTE)
+def c15(ck):
+    ck.rule.append("4 forms x 14 types x lo,hi,n in 0..3 (1568 texts) + 168 huge-bound texts + 14 ASCII-variable declarations x 10 fill lengths; "
+                   "non-trivial = every event; distinct by text")
+    ck.exhaustive = True
+    ck.trace("sizes", "sizes", [], "TraceSml", "TraceSml.cfg", ["InvC15", "InvC15v"], agree=["InvAgreeParse"], key=SML_KEY)
+    ck.assumptions.append(SML_NOTE)
+
+
+@check("C19", design_ref="4 C19",
+       technique="TLC model checking of the parser model on concatenations of message texts; trace validation of real parses of parts and of their concatenation",
+       text="TLC checks on the model, for all pairs and triples from an adversarial set of message texts (reused variable names, ellipses in each, "
+            "rejected members) and every separator allowed after a terminator, that the parse of the concatenation is the concatenation of the "
+            "parses. The real parser is run on 2-4 accepted texts (reusing names and ellipsis numbers) and on their concatenation with random "
+            "separators; TLC checks that the whole is accepted and returns the parts' messages in order, each identical to the part parsed alone.",
+       note=SML_NOTE + "; parts end with their terminator (an unterminated trailing comment would swallow the next message)")
+def c19(ck):
+    ck.rule.append("model: 8 texts ^ 2..3 x 7 separators; traces: 2-4 accepted texts joined by random separators; non-trivial = every event; distinct by whole text")
+    _sml_models(ck, ["concat"])
+    ck.trace("concat", "concat", ["-n", q(ck, 600, 15000)], "TraceSml", "TraceSml.cfg", ["InvC19"], agree=["InvAgreeC19"],
+             key=lambda e: json.dumps(e.get("whole", {}).get("text")))
+    ck.assumptions.append(SML_NOTE)
